@@ -90,9 +90,20 @@ def s2m_rules(ctx, fv):
         return n is loop
     paths = enum_paths(then, want)
     bad = None
-    rec_id = None
+    # elements the vector is created with (`vec![record.id]`) count as leading pushes
+    init_b = fv.binds[mins_ids[0]]["val"]
+    init_t = fv.term(init_b[1]) if init_b[0] == "node" else ("none",)
+    prefix = [x for a in subterms(init_t) if a[0] == "array" for x in a[1:]]
+
+    def strlit(t):
+        while t[0] == "call" and t[1].split("::")[-1] in ("to_string", "to_owned", "from", "into") and len(t) == 3:
+            t = t[2]
+        return t
+
+    def is_rec_id(t):
+        return t[0] == "field" and t[2] == "id" and contains(t, lambda s_: s_[0] == "call" and s_[1].endswith("Iterator::next"))
     for ev, ex in paths:
-        seq = []
+        seq = [("elem", t, None) for t in prefix]
         inloop = 0
         for e in ev:
             if e[0] == "enter" and e[1] is loop:
@@ -102,32 +113,28 @@ def s2m_rules(ctx, fv):
             elif e[0] == "ev" and e[1] is not loop:
                 n = e[1]
                 if cname(n).endswith("write_all"):
-                    seq.append(("write", n))
+                    seq.append(("write", None, n))
                 else:
-                    seq.append(("push_in_loop" if inloop else "push", n))
-        kinds = [k for k, _ in seq]
-        outer = [k for k in kinds if k != "push_in_loop"]
-        if outer != ["push", "push", "write"] or ex[0] not in ("fall", "continue"):
-            bad = ("a path from a taken record performs %s (exit %s); expected push(id), pushes of run texts, "
-                   "push(newline), one write_all" % (kinds, ex[0]), seq[-1][1] if seq else then)
+                    seq.append(("run" if inloop else "elem", fv.term(n["args"][0]), n))
+        kinds = [k for k, _, _ in seq]
+        outer = [k for k in kinds if k != "run"]
+        last_node = next((n for _, _, n in reversed(seq) if n is not None), then)
+        if outer != ["elem", "elem", "write"] or ex[0] not in ("fall", "continue"):
+            bad = ("a path from a taken record builds/writes %s (exit %s); expected the record id, the run texts, a "
+                   "newline element and exactly one write_all" % (kinds, ex[0]), last_node)
             break
-        # order: first outer push before loop pushes, second after
-        first_push = seq[0]
-        last_push = [s for s in seq if s[0] == "push"][-1]
-        if first_push[0] != "push" or seq.index(last_push) != len(seq) - 2:
-            bad = ("pushes are not ordered id, runs, newline", first_push[1])
+        elems = [s_ for s_ in seq if s_[0] == "elem"]
+        first, last = elems[0], elems[1]
+        if seq.index(first) != 0 or seq.index(last) != len(seq) - 2:
+            bad = ("elements are not ordered id, runs, newline", last_node)
             break
-        t_id = fv.term(first_push[1]["args"][0])
-        if not (t_id[0] == "field" and t_id[2] == "id" and contains(t_id, lambda s: s[0] == "call" and s[1].endswith("Iterator::next"))):
-            bad = ("the line does not start with the taken record's id (first element is `%s`)" % show(t_id), first_push[1])
+        if not is_rec_id(first[1]):
+            bad = ("the line does not start with the taken record's id (first element is `%s`)" % show(first[1]), first[2] or then)
             break
-        lt = fv.term(last_push[1]["args"][0])
-        while lt[0] == "call" and lt[1].split("::")[-1] in ("to_string", "to_owned", "from", "into") and len(lt) == 3:
-            lt = lt[2]
-        if lt != L("\n"):
-            bad = ("the line is not terminated by a newline element", last_push[1])
+        if strlit(last[1]) != L("\n"):
+            bad = ("the line is not terminated by a newline element", last[2] or then)
             break
-        w = seq[-1][1]
+        w = seq[-1][2]
         rty = w["recv"].get("ty", "")
         data = fv.term(w["args"][0])
         if not rty.startswith("std::sync::MutexGuard<"):
@@ -202,12 +209,12 @@ def agree_rule(ctx, fs, fm):
     a = mgen_term(fs)
     b = mgen_term(fm)
     if len(a) == 1 and len(b) == 1:
-        ta, tb = alpha(fs.term(a[0]["iter"])), alpha(fm.term(b[0]["iter"]))
+        ta, tb = alpha(lift_if(fs.term(a[0]["iter"]))), alpha(lift_if(fm.term(b[0]["iter"])))
         ctx.check("C10.G", "s2m_vs_m2s:iterator", ta == tb, "both outputs build the iterator as %s" % show(fs.term(a[0]["iter"])),
                   "seq_to_min builds `%s` but bin_sequences builds `%s`: the two outputs would not describe the same runs"
                   % (show(fs.term(a[0]["iter"])), show(fm.term(b[0]["iter"]))), line_of(b[0]))
     for fv, who in ((fs, "seq_to_min"), (fm, "bin_sequences")):
-        it = fv.term(mgen_term(fv)[0]["iter"]) if mgen_term(fv) else ("none",)
+        it = lift_if(fv.term(mgen_term(fv)[0]["iter"])) if mgen_term(fv) else ("none",)
         w, m = ("param", param_index(fv, "wsize")), ("param", param_index(fv, "msize"))
         seqs = set()
         ok = it[0] == "if" and it[1] == mk_bin("==", w, L(0))
@@ -222,6 +229,12 @@ def agree_rule(ctx, fs, fm):
         asg = [n for n in fv.nodes if n.get("k") == "assign" and n["l"].get("k") == "local" and n["l"]["name"] == "threads"]
         okt = len(asg) == 1 and fv.term(asg[0]["r"]) == ("call", "rayon::current_num_threads") and \
             any(t[0] == "bin" and t[1] == "==" and L(0) in (t[2], t[3]) and p for t, p in [(fv.term(c), p) for c, p in fv.guards(asg[0])])
+        if not okt:
+            # expression form: the pool size is `if threads == 0 { current_num_threads() } else { threads }`
+            tp = ("param", param_index(fv, "threads"))
+            want_t = ("if", mk_bin("==", tp, L(0)), ("call", "rayon::current_num_threads"), tp)
+            nts = [n for n in fv.nodes if n.get("k") == "mcall" and cname(n).endswith("ThreadPoolBuilder::num_threads")]
+            okt = len(nts) == 1 and fv.term(nts[0]["args"][0]) == want_t
         ctx.check("C10.G", "%s:threads0" % who, okt, "threads == 0 -> rayon::current_num_threads()",
                   "threads == 0 is not mapped to the pool default in %s" % who, fv.fn["sp"])
 
@@ -238,7 +251,8 @@ def window_rule(ctx, rule):
                     continue
                 n += 1
                 k_in_fn += 1
-                okc = w[0] == "bin" and w[1] == "max" and m in (w[2], w[3])
+                leaves = [x for x in if_leaves(w) if contains(x, lambda s: s[0] == "call" and s[1].endswith("::len"))]
+                okc = bool(leaves) and all(x[0] == "bin" and x[1] == "max" and m in (x[2], x[3]) for x in leaves)
                 if not okc:
                     for t, p in [(fv.term(g), p) for g, p in fv.guards(c)]:
                         if p and t[0] == "bin" and t[1] in ("<=", "<") and t[2] == m and contains(t[3], lambda s: s[0] == "call" and s[1].endswith("::len")):
